@@ -46,6 +46,16 @@ template<class A> struct wants_internal_lookup<A, std::enable_if_t<A::no_interna
 template<bool B> struct internal_lookup_marker {};
 template<> struct internal_lookup_marker<true> { using needs_internal_lookup_symbol = void; };
 
+// the same ABI for a backend that can grant/deny access to buffers (`can_grant_deny_access`)
+struct AbiAg : AbiA { static constexpr bool grants_access = true; };
+template<class A, class = void> struct wants_grant : std::false_type {};
+template<class A> struct wants_grant<A, std::enable_if_t<A::grants_access>> : std::true_type {};
+template<bool B> struct grant_marker {};
+template<> struct grant_marker<true> { using can_grant_deny_access = void; };
+// how the granting backend answers: 0 = refuses and hands the caller's pointer back (success = false), 1 = grants by moving the
+// bytes into its region (success = true), 2 = refuses with a null result
+inline thread_local int g_grant_mode = 0;
+
 struct GuestFn { const char* name; void* callable; };
 struct Library {
   const char* libname;
@@ -95,7 +105,7 @@ template<class Abi, unsigned K, unsigned NCB>
 struct rlbox_vsbx_thread_data { rlbox_vsbx<Abi, K, NCB>* sandbox; uint32_t last_callback_invoked; };
 
 template<class Abi, unsigned K, unsigned NCB>
-class rlbox_vsbx : public vsbx::internal_lookup_marker<vsbx::wants_internal_lookup<Abi>::value>
+class rlbox_vsbx : public vsbx::internal_lookup_marker<vsbx::wants_internal_lookup<Abi>::value>, public vsbx::grant_marker<vsbx::wants_grant<Abi>::value>
 {
 public:
   using Self = rlbox_vsbx<Abi, K, NCB>;
@@ -265,6 +275,33 @@ protected:
     return ret;
   }
   inline void impl_free_in_sandbox(T_PointerType) { n_free++; }
+
+  // only reachable on the AbiAg flavour (rlbox asks for the `can_grant_deny_access` marker first)
+  template<typename T> inline T* impl_grant_access(T* src, size_t num, bool& success)
+  {
+    if (vsbx::g_grant_mode == 1) {
+      size_t bytes = num * sizeof(T), r = (bytes + 7) & ~size_t(7);
+      if (brk + r <= Size) {
+        void* dst = reinterpret_cast<void*>(Base + brk);
+        std::memcpy(dst, const_cast<const void*>(reinterpret_cast<const volatile void*>(src)), bytes);
+        brk += r; success = true;
+        return reinterpret_cast<T*>(dst);
+      }
+    }
+    success = false;
+    return vsbx::g_grant_mode == 2 ? nullptr : src;
+  }
+  template<typename T> inline T* impl_deny_access(T* src, size_t num, bool& success)
+  {
+    if (vsbx::g_grant_mode == 1) {
+      void* dst = std::malloc(num * sizeof(T) ? num * sizeof(T) : 1);
+      std::memcpy(dst, const_cast<const void*>(reinterpret_cast<const volatile void*>(src)), num * sizeof(T));
+      success = true;
+      return reinterpret_cast<T*>(dst);
+    }
+    success = false;
+    return vsbx::g_grant_mode == 2 ? nullptr : src;
+  }
 
 public:
   // rlbox inspects the arity of this member through decltype, so it cannot be overloaded.
